@@ -5,6 +5,7 @@ import numpy as np
 from vf.api import bounded
 from geometry_tools.automata import fsa
 from contracts.fsa_model import Model, coherence_error, all_deterministic_automata, views
+import contracts.p_walks  # Engine P contracts (registered on import)
 
 P = "C10"
 A = "geometry_tools/automata/fsa.py:"
